@@ -13,7 +13,7 @@ THEOREMS = ["c13_only_attributes_change", "c13_item_attributes", "c13_method_att
             "c13_handler_parameter_attributes_removed", "c13_helper_methods_untouched", "c13_idempotent"]
 
 THEOREMS_T = ["c13_translated_items_keep_foreign_attributes", "c13_translated_methods", "c13_translated_parameters",
-              "c13_translated_remove_input_attr"]
+              "c13_translated_remove_input_attr", "c13_translated_framework_attributes", "c13_translated_framework_attribute_names"]
 
 HEADER = ("From Coq Require Import String List.\nImport ListNotations.\nRequire Import SV.Model.GenTables SV.Model.Strip.\n"
           "Open Scope string_scope.\n")
